@@ -109,6 +109,26 @@ func csvQuoterEmitShape(c *Ctx, f *ssa.Function, in *ssa.Parameter, rv ssa.Value
 				if !s.IsNil() {
 					return ""
 				}
+			case *ssa.Slice:
+				// room[:0] of a buffer made here and used for nothing else: an empty start with spare capacity
+				ms, isMS := s.X.(*ssa.MakeSlice)
+				if !isMS || s.Low != nil || s.High == nil {
+					return ""
+				}
+				if k, ok := constInt(s.High); !ok || k != 0 {
+					return ""
+				}
+				for _, r := range referrersOf(ms) {
+					switch u := r.(type) {
+					case *ssa.DebugRef:
+					case *ssa.Slice:
+						if u != s {
+							return ""
+						}
+					default:
+						return ""
+					}
+				}
 			default:
 				return ""
 			}
